@@ -1,10 +1,13 @@
 """C16 — concurrent serving (Engine / Wrapper / Dealer / Executor / Pool) vs lean/ForML/Model/Serving.lean.
 
 The real `forml.runtime._service.Engine` is driven in *session* sub-processes (one engine = one registry with
-1..3 applications over distinct model instances, a pool size, several batches of concurrent `Engine.apply`
-calls).  Each session prints the observable trace (arrive / answer events); the parent validates the trace
-against the model driver (`validate`: is it the projection of a model schedule?) and evaluates the oracle
-(own payload, selected instance, exactly once, platform failures fail alone) directly on the trace.
+1..3 applications over distinct model instances, a pool size).  Two kinds of session: *controlled* ones, where a
+seeded controller decides every next step of the interleaving (CTL_SESSION: intercepted off-loop calls, parked
+inventory.list(), gated actors) and *timed* ones (SESSION: concurrent `Engine.apply` calls with random delays).
+Each session prints the observable trace (arrive / answer events); the parent validates the trace against the
+model driver (`validate`: is it the projection of a model schedule?) and evaluates the oracle (own payload,
+selected instance, exactly once, platform failures fail alone) directly on the trace.  Nothing is judged by
+how fast something happens: a session that does not come back is a machinery error (exit 2).
 """
 from __future__ import annotations
 
@@ -168,6 +171,37 @@ def build(plan, root):
     return reg, descriptors
 
 
+def diagnose(engine):
+    """where is everything when a caller stays unanswered?  (diagnostics only; private attributes, best effort)"""
+    import sys
+    import traceback
+
+    out = {'executors': {}, 'threads': []}
+    try:
+        for key, ex in engine._dealer._cache.items():
+            info = {'thread_alive': bool(ex.is_alive()), 'pool_alive': bool(ex._pool.is_alive())}
+            for name, probe in (('pending', lambda: len(ex._pending)), ('index', lambda: ex._index),
+                                ('tasks', lambda: ex._tasks.qsize()), ('results', lambda: ex._results.qsize()),
+                                ('stopped', lambda: bool(ex._stopped.is_set()))):
+                try:
+                    info[name] = probe()
+                except Exception as err:  # pylint: disable=broad-except
+                    info[name] = f'?{type(err).__name__}'
+            out['executors'][str(key)] = info
+    except Exception as err:  # pylint: disable=broad-except
+        out['error'] = f'{type(err).__name__}: {err}'
+    try:
+        import threading
+        names = {t.ident: t.name for t in threading.enumerate()}
+        for ident, frame in sys._current_frames().items():
+            stack = traceback.extract_stack(frame)[-4:]
+            out['threads'].append(names.get(ident, str(ident)) + ': ' + ' < '.join(
+                f'{fs.name}@{fs.filename.rsplit("/", 1)[-1]}:{fs.lineno}' for fs in reversed(stack)))
+    except Exception:  # pylint: disable=broad-except
+        pass
+    return out
+
+
 def make_inventory(descriptors, race=None):
     from forml.io import asset
 
@@ -254,12 +288,13 @@ async def main(plan):
         tasks = {asyncio.ensure_future(call(r)): r['c'] for r in batch['requests']}
         done, pending = await asyncio.wait(tasks, timeout=batch['deadline_s'])
         lost = sorted(tasks[t] for t in pending)
-        alive = None
+        alive = diag = None
         if lost:
-            alive = {str(k): bool(v.is_alive() and v._pool.is_alive()) for k, v in engine._dealer._cache.items()}
+            diag = diagnose(engine)
+            alive = {k: bool(v['thread_alive'] and v['pool_alive']) for k, v in diag['executors'].items()}
             for t in pending:
                 t.cancel()
-        out['batches'].append({'lost': lost, 'alive': alive, 'wall': round(time.time() - t0, 3)})
+        out['batches'].append({'lost': lost, 'alive': alive, 'diag': diag, 'wall': round(time.time() - t0, 3)})
         if lost:  # what follows would only wait for the same dead end again
             break
     out['events'] = events
@@ -394,7 +429,7 @@ class Control:
     STEP_TIMEOUT = 150.0   # a started off-loop call with nothing parked must come back: far beyond any real latency
     BLOCK_WAIT = 0.2       # while a thread is parked in list(): how long started calls get to reach a control point
     SPAWN_TIMEOUT = 150.0  # first task of an instance: manager + spawned pool + forked workers have to come up
-    EXPECT_TIMEOUT = 20.0  # any other expected consequence of an action
+    EXPECT_TIMEOUT = 10.0  # any other expected consequence of an action
     LOST_DEADLINE = 90.0   # nothing left to do, a caller unanswered, no event for this long => reported as lost
     BUDGET = 330.0         # whole session
 
@@ -446,7 +481,7 @@ class Control:
 
     @property
     def degraded(self):
-        return sum(self.flags.values()) >= 3
+        return sum(self.flags.values()) >= 2
 
     # ---- interception points (all run on the loop thread) ------------------------------------------------------------
     def intercept(self, c, executor, func, args, real_run):
@@ -731,7 +766,7 @@ class Control:
                 return {'performed': performed, 'lost': [], 'aborted': 'session budget exhausted'}
             acts = self.available(todo)
             if not acts:
-                if not await self.wait_change(20.0 if self.degraded else self.LOST_DEADLINE):
+                if not await self.wait_change(30.0 if self.degraded else self.LOST_DEADLINE):
                     lost = sorted(c for c in todo if c in self.arrived and c not in self.done)
                     break
                 continue
@@ -740,10 +775,14 @@ class Control:
             for act in (acts if self.degraded else self.choose(acts, rng, rnd, script)):
                 performed.append(list(act))
                 self.perform(act)
-        alive = None
+        alive = diag = None
         if lost:
-            alive = {str(k): bool(v.is_alive() and v._pool.is_alive()) for k, v in self.engine._dealer._cache.items()}
-        return {'performed': performed, 'lost': lost, 'alive': alive}
+            diag = base.diagnose(self.engine)
+            diag['controller'] = {'parked': sorted(self.parked), 'at_gate': sorted(c for c in self.taken if self.taken[c]),
+                                  'off_loop': {str(c): [o['k'], o['started']] for c, o in self.off.items()},
+                                  'state': {str(c): self.st.get(c) for c in lost}}
+            alive = {k: bool(v['thread_alive'] and v['pool_alive']) for k, v in diag['executors'].items()}
+        return {'performed': performed, 'lost': lost, 'alive': alive, 'diag': diag}
 
     def release_everything(self):
         for ev in self.parked.values():
@@ -827,33 +866,47 @@ class C16(fw.Check):
     ID = 'C16'
     LEAN_MODULES = ['ForML.Props.C16']
     DRIVER = 'drv_c16'
-    RULE = ('sessions = one real Engine over a temp posix registry + in-memory inventory with 1..3 applications '
-            '(Generic + Explicit selector) over 1..3 distinct model instances (distinct projects and/or generations, '
-            'distinct states; sometimes two applications share an instance), pool size 1..4; per session 2..6 batches of '
-            '1..64 concurrent Engine.apply calls (text/csv or plain application/json, 1..3 rows, shuffled column order, '
-            'per-request actor delay 0..40 ms carried in the payload, arrival offsets 0..25 ms) with 0..40 % failing '
-            'requests (unknown application / unsupported encoding / missing column) at random positions, plus all '
-            '3 fault kinds x 4 positions for batches of 4; a case = one batch, distinct by its full request list, '
-            'non-trivial when >= 2 requests and >= 1 healthy one.  Trace (arrive/answer events) must be accepted by the '
-            'model driver (projection of a schedule of the lock-repaired model); oracle on the real trace: every call '
-            'answered before the deadline while the pool is alive, rows carry own token/row index and the state of the '
-            'instance the application selects, response.instance is that instance, failing requests get their own '
-            'platform error and nobody else fails.  Deterministic descriptor race through an Inventory double whose '
-            'list() blocks on a barrier; one fatal-exception session recorded as behaviour.')
+    RULE = ('sessions = one real Engine (Wrapper, Dealer, prediction.Executor, spawned Pool, forked workers) over a temp '
+            'posix registry + in-memory inventory with 1..3 applications (Generic + Explicit selector) over 1..3 distinct '
+            'model instances (distinct projects and/or generations, distinct states; sometimes two applications share an '
+            'instance), pool size 1..4; requests are text/csv or plain application/json, 1..3 rows, shuffled column '
+            'order; 0..50 % failing requests (unknown application / unsupported content type / missing column / no '
+            'acceptable response encoding) at random positions.  (a) CONTROLLED sessions (kind ctl): the event loop\'s '
+            'run_in_executor is intercepted, inventory.list() parks its thread, the model actor waits at a gate in the '
+            'worker process; a seeded controller performs one action at a time (arrive c / start c\'s pending off-loop '
+            'call / un-park c / let c\'s task finish), chosen among those available with round-specific weights '
+            '(uniform, flood, drain, park, starve), order (random, fifo, lifo) and burst rate, and lets the system '
+            'settle in between: 6 (quick) / 40 (thorough) sessions x 12 / 30 rounds of 1..16 (once 64, 32) requests + '
+            'descriptor-race sessions (first requests of one application with every thread parked in list()); a case '
+            '= one round, distinct by its requests AND the performed action list, non-trivial when >= 2 requests and '
+            '>= 1 healthy.  (b) TIMED sessions (as before): 2..6 batches of 1..64 concurrent Engine.apply calls with '
+            'per-request actor delays 0..40 ms and arrival offsets 0..25 ms, all 4 fault kinds x 4 positions for '
+            'batches of 4, the barrier-driven descriptor race, one fatal-exception session recorded as behaviour; a '
+            'case = one batch.  Every trace (arrive/answer events) must be accepted by the model driver (projection of '
+            'a schedule of the locked model, same answers, nothing left enabled); oracle on the real trace: every call '
+            'answered (lost = nothing left to do and no event for 90 s while executor and pool are alive), rows carry '
+            'own token/row index and the state of the instance the application selects, response.instance is that '
+            'instance, response encoding is the accepted one, failing requests get their own platform error and nobody '
+            'else fails.  Evidence only (coverage.controlled): the fine-grained log of each controlled session is '
+            'linearised into a model schedule which the model must follow step by step with the same answers.')
     TRUSTED = [
-        'OS scheduling, multiprocessing.Manager queues (assumed FIFO, lossless), asyncio.wrap_future, process spawn: '
-        'modelled as nondeterministic interleaving, sampled only',
+        'OS scheduling, multiprocessing.Manager queues (assumed FIFO, lossless), asyncio.wrap_future, process spawn, '
+        'concurrent.futures pools: modelled as nondeterministic interleaving; controlled sessions choose the order of '
+        'the off-loop calls, of the descriptor critical sections and of the task completions, everything below '
+        '(queue hand-over, thread wake-ups) is sampled only',
         'descriptor.select is a static Explicit strategy in the sessions (selection strategies are C17)',
         'the generated actor (state*10^6 + token*10 + row) stands for the uninterpreted f(instance, payload)',
         'await-level observation: a coroutine returns at most once, so duplicates are only checked in the model; '
-        'lost = not answered within the batch deadline while executor and pool are alive',
+        'lost = not answered although nothing is left to do, for 90 s, while executor and pool are alive',
+        'controller hooks: asyncio loop.run_in_executor (public API), the inventory passed to Engine, the actor of '
+        'the generated project; asyncio.Task._fut_waiter is read to see that a coroutine has been resumed',
     ]
     ASSUMPTIONS = ['inventory content is static during a session',
                    'fault class = platform-level errors (forml.AnyError); a non-platform exception in an actor stops '
                    'the pool (C16_fatal_counterexample) and is recorded as behaviour outside the property',
-                   'C16_exact_partial / C16_isolation are stated for the lock-repaired _get_descriptor '
-                   '(fixes/C16-descriptor-lock.diff); the code as it exists is refuted by '
-                   'C16_descriptor_race_counterexample']
+                   'the theorems about answers being exact are for _get_descriptor as it exists (critical section '
+                   'under Wrapper._lock, /repo 710a92e); the code before that repair is refuted by '
+                   'C16_descriptor_race_counterexample, replayed on every run as fixed finding C16-F1']
 
     def __init__(self, tier, seed):
         super().__init__(tier, seed)
@@ -1173,7 +1226,8 @@ class C16(fw.Check):
             if r.get('aborted'):
                 raise fw.MachineryError(f"controlled session {plan['sid']}: {r['aborted']}")
         raw['events'] = [e for e in raw['log'] if e['ev'] in ('arrive', 'answer')]
-        raw['batches'] = [{'lost': r['lost'], 'alive': r['alive'], 'wall': r['wall']} for r in raw['rounds']]
+        raw['batches'] = [{'lost': r['lost'], 'alive': r['alive'], 'diag': r.get('diag'), 'wall': r['wall']}
+                          for r in raw['rounds']]
         return raw
 
     def _schedule_of(self, plan, trace):
@@ -1357,13 +1411,28 @@ class C16(fw.Check):
         for bi, b in enumerate(trace['batches']):
             for c in b['lost']:
                 alive = b['alive'] or {}
-                if all(alive.values()):
-                    out.append((f'caller {c} ({reqs[c]["app"]}, fault={reqs[c]["fault"]}) was not answered within '
-                                f'{plan["batches"][bi]["deadline_s"]} s although every executor and pool is alive',
-                                'lost-response', {'c': c, 'batch': bi}))
-                else:
+                diag = b.get('diag') or {}
+                if not all(alive.values()):
                     out.append((f'caller {c} was never answered: executor/pool of {[k for k, v in alive.items() if not v]} '
-                                f'is dead without any fatal request in the session', 'pool-died', {'c': c, 'batch': bi}))
+                                f'is dead without any fatal request in the session', 'pool-died',
+                                {'c': c, 'batch': bi, 'diag': diag}))
+                    continue
+                # everything is alive.  Only a quiescent system has lost the response: no task waiting for a worker,
+                # no result waiting for the executor thread.  Anything still queued after 90 s is a stall of the
+                # environment (starved / wedged process) - a timeout, i.e. a machinery problem, not a verdict.
+                queues = [(k, v.get('tasks'), v.get('results')) for k, v in (diag.get('executors') or {}).items()]
+                if not queues or any(not isinstance(t, int) or not isinstance(r, int) for _, t, r in queues):
+                    raise fw.MachineryError(f"session {plan['sid']}: caller {c} unanswered after "
+                                            f"{plan['batches'][bi]['deadline_s']} s and the queues cannot be inspected: {diag}")
+                if any(t or r for _, t, r in queues):
+                    raise fw.MachineryError(
+                        f"session {plan['sid']} stalled: caller {c} unanswered after {plan['batches'][bi]['deadline_s']} s "
+                        f"while tasks/results are still queued and every process is alive (timeout, not judged): "
+                        f"{json.dumps(diag)[:3000]}")
+                out.append((f'caller {c} ({reqs[c]["app"]}, fault={reqs[c]["fault"]}) was not answered within '
+                            f'{plan["batches"][bi]["deadline_s"]} s: every executor and pool is alive, no task and no '
+                            f'result is queued any more - the response is lost', 'lost-response',
+                            {'c': c, 'batch': bi, 'diag': diag}))
         for c in sorted(arrived):
             r = reqs[c]
             got = answers.get(c, [])
@@ -1408,7 +1477,10 @@ class C16(fw.Check):
                 out.append((f'caller {c} with fault {r["fault"]} got {k[1]} instead of {want[1]}',
                             f'wrong-error:{want[1]}->{k[1]}', d))
             else:
-                out.append((f'caller {c}: {k[1]}', 'odd-response:' + k[1].split(':')[0][:40], d))
+                sig = ('wrong-instance-label' if k[1].startswith('response.instance') else
+                       'mixed-rows' if k[1].startswith('rows of several') else
+                       'unknown-state' if k[1].startswith('state ') else 'odd-response:' + k[1].split(':')[0][:40])
+                out.append((f'caller {c}: {k[1]}', sig, d))
         return out
 
     # ---- correspondence ------------------------------------------------------------------------------------------
@@ -1427,8 +1499,9 @@ class C16(fw.Check):
                                    requests=slim['batches'][i]['requests'],
                                    actions=done[i]['performed'] if i < len(done) else None)
                               for i, r in enumerate(plan['rounds'])]
-            if detail and 'batch' not in detail:
-                bi = next((i for i, b in enumerate(plan['batches']) if any(r['c'] == detail.get('c') for r in b['requests'])), None)
+            if detail:
+                bi = detail.get('batch', next((i for i, b in enumerate(plan['batches'])
+                                               if any(r['c'] == detail.get('c') for r in b['requests'])), None))
                 if bi is not None:  # rounds after the failing one are not needed
                     slim['rounds'], slim['batches'] = slim['rounds'][:bi + 1], slim['batches'][:bi + 1]
         return {'kind': 'session', 'plan': slim, 'detail': detail}
@@ -1523,19 +1596,27 @@ class C16(fw.Check):
             # 6 engines at a time (each up to 3 executors x (manager + pool + <=4 workers)); nothing in a session
             # depends on how fast it runs
             traces = self._run_sessions(everything, parallel=self.n(6, 7))
-            walls = []
+            walls, found = [], []
             for plan, trace in zip(everything, traces):
                 walls.append(trace['wall'])
                 if plan['kind'] == 'fatal':
                     self._record_fatal(plan, trace)
                     continue
                 for what, sig, detail in self._judge(plan, trace, account=True):
-                    self.violate(what, self._witness(plan, detail, trace) if plan['kind'] != 'race'
-                                 else {'kind': 'descriptor-race', 'same_app': plan['race']['same_app']}, sig, detail)
+                    # size of the witness = all requests up to and including the round of the failing caller
+                    upto = next((i for i, b in enumerate(plan['batches'])
+                                 if any(r['c'] == (detail or {}).get('c') for r in b['requests'])), len(plan['batches']) - 1)
+                    size = sum(len(b['requests']) for b in plan['batches'][:upto + 1])
+                    found.append((size + 1000 * (plan['kind'] != 'ctl'), len(found), what, sig, detail, plan, trace))
                 if plan['kind'] == 'race':
                     self._record_race(plan, trace)
                 if plan['kind'] == 'ctl':
                     self._follow(plan, trace)
+            # per root cause the framework reports the first violation: offer the smallest failing rounds first
+            # (controlled ones before timed ones: their witness carries the schedule)
+            for _, _, what, sig, detail, plan, trace in sorted(found, key=lambda f: f[:2]):
+                self.violate(what, self._witness(plan, detail, trace) if plan['kind'] != 'race'
+                             else {'kind': 'descriptor-race', 'same_app': plan['race']['same_app']}, sig, detail)
             self.extra['sessions'] = len(everything)
             self.extra['requests'] = sum(len(b['requests']) for p in everything for b in p['batches'])
             self.extra['session_wall_s'] = {'max': max(walls), 'sum': round(sum(walls), 1)}
